@@ -4,7 +4,8 @@ Every logical program (gen/gen_dl.py) is rendered as ~14 real artefacts (gen/c09
 ascent_run! / ascent_run_par! with the input captured from locals (initialisers, rule bodies), ascent_par!,
 include_source! at the start / middle / end / twice / adjacent / whole program, `relation r(..) = e`
 initialisers evaluated by Default::default(), re-declarations (last wins), generic struct signatures (4 forms),
-#![measure_rule_times], #![generate_run_timeout] (run() and run_timeout(Duration::MAX)), all at once; and every
+#![measure_rule_times], #![generate_run_timeout] (run() and run_timeout(Duration::MAX)), all at once, every token re-spanned
+to Span::call_site() by a helper proc macro (as another proc macro would emit the program; alone and with includes); and every
 crate is built a second time with the `segment-codegen` feature of the `ascent` crate.  All must produce the
 relations (as sets + row counts) of the specification oracle (Engine/Sem.v naive_fix / Strat.strat_fix)."""
 import json
@@ -64,20 +65,16 @@ def gen_cases(tier, seed):
     return cases
 
 
-K_SPANS = "include_source_drops_prefix_when_spans_coincide"
 K_LOCALS = "include_source_hides_captured_locals"
 
 
 def known_class(job, iv, pv):
-    """specific matchers of the two findings (anything else that goes wrong in these packagings stays a violation)"""
+    """specific matcher of the finding (anything else that goes wrong stays a violation).  The second finding of the first
+    round, include_source_drops_prefix_when_spans_coincide, is fixed (/repo 9a74b6c): packaging inc_uniform is a regular one."""
     if job["kind"] == "inc_captured" and iv and "compile_error" in iv:
         errs = [l for l in iv["compile_error"].splitlines() if "error" in l]
         if errs and all("E0425" in l and "cannot find value `in_" in l for l in errs):
             return K_LOCALS
-    if job["kind"] == "inc_uniform" and iv is not None and pv is not None:
-        # the faithful model (Pack/PackModel.v scan: before_tokens = []) predicts the program without the items before the include
-        if "snaps" in iv and "snaps" in pv and prog.canon_snap(iv["snaps"][-1]) == prog.canon_snap(pv["snaps"][-1]):
-            return K_SPANS
     return None
 
 
@@ -112,6 +109,9 @@ def compare_job(r, job, res, feature, pred=None):
                         job["kind"], job["macro"], " +segment-codegen" if feature else "", name, ilen,
                         [t for t in sg[name][1] if t not in iset][:5], [t for t in iset if t not in sg[name][1]][:5])
                     break
+        if what and job["kind"] == "inc_uniform" and pred and iv and "snaps" in iv and "snaps" in pred[s] \
+                and prog.canon_snap(iv["snaps"][-1]) == prog.canon_snap(pred[s]["snaps"][-1]):
+            what += " [the result equals that of the program WITHOUT the items before the include: the prefix was dropped, as before fix 9a74b6c]"
         if what:
             mism.append(dict(case=cs, impl=got if got else iv, model=None, spec={n: sg[n][1] for n, _, _ in rels}, kind="impl_violates_spec",
                              known=known_class(job, iv, pred[s] if pred else None), what=what))
@@ -190,7 +190,7 @@ def tie(tier, seed, replay):
         if j["kind"] in ("inc_two", "redecl", "combo", "run_init") and len(sample) < 4:
             sample.append(dict(packaging=j["kind"], macro=j["macro"], detail=j["desc"], module=j["src"][j["src"].find("}} }") + 4:][:1800]))
     return dict(evaluations=evals, distinct_nontrivial=len(distinct),
-                rule="random logical programs (1/4 without interpreted functions, 1/2 C01-style, 1/4 stratified with aggregates / negation) x 2 inputs, each rendered as 14-17 packagings (base, ascent_run! / ascent_run_par! with captured locals as initialisers or in rule bodies, ascent_par!, include_source! start / middle / end / two / adjacent / whole, initialisers via Default, re-declarations, generic signature, measure_rule_times, generate_run_timeout with run() and run_timeout(MAX), all combined), whole crate built with and without ascent/segment-codegen; every relation compared (set + row count) with the specification oracle of the logical program; non-trivial = the logical program derives at least one fact on that input; distinct = distinct (packaging job, script, feature)",
+                rule="random logical programs (1/4 without interpreted functions, 1/2 C01-style, 1/4 stratified with aggregates / negation) x 2 inputs, each rendered as 14-17 packagings (base, ascent_run! / ascent_run_par! with captured locals as initialisers or in rule bodies, ascent_par!, include_source! start / middle / end / two / adjacent / whole, initialisers via Default, re-declarations, generic signature, all tokens re-spanned to one span by a helper proc macro (alone and with includes), measure_rule_times, generate_run_timeout with run() and run_timeout(MAX), all combined), whole crate built with and without ascent/segment-codegen; every relation compared (set + row count) with the specification oracle of the logical program; non-trivial = the logical program derives at least one fact on that input; distinct = distinct (packaging job, script, feature)",
                 samples=sample, distribution=dict(programs=len(results), packaging_jobs=kinds, scripts_agreeing=okc, macros=macros,
                                                   pure_programs=sum(1 for r in results if c09_pack.is_pure(r["case"]["prog"])),
                                                   with_aggregates=sum(1 for r in results if r["case"]["prog"].get("shape") == "stratified")),
